@@ -166,7 +166,8 @@ def batchHdr (firstOffset ple magic attrs lod fts mts pid pepoch fseq : Int) : B
     producerID := pid, producerEpoch := pepoch, firstSequence := fseq, records := [] }
 
 /-- `RecordBatch.decode` after the record count: slice `batchLen − 49` bytes of records (a short input makes
-    the batch a partial trailing one: no error, no records), check the CRC (pop), decompress, decode the
+    the batch a partial trailing one: no error, no records), check the CRC (pop), decompress; a count the
+    decompressed records cannot hold (every record takes at least one byte) also gives a partial batch; decode the
     records, which must use up the decompressed buffer.  `c0` = input after the CRC field, `c8` = input after
     the record count. -/
 def decBatchTail (decomp : Int → Bytes → Option Bytes) (hdr : Batch) (batchLen : Int) (crc : Nat)
@@ -178,12 +179,14 @@ def decBatchTail (decomp : Int → Bytes → Option Bytes) (hdr : Batch) (batchL
     match decomp hdr.codec (c8.take (batchLen - 49).toNat) with
     | none => none
     | some raw =>
+      if numRecs > raw.length then some ({ hdr with partialTrailing := true }, c8.drop (batchLen - 49).toNat) else
       match decRecords numRecs.toNat raw with
       | none => none    -- (an ErrInsufficientData here is reported as a partial batch by the code)
       | some (rs, left) =>
         if left.isEmpty then some ({ hdr with records := rs }, c8.drop (batchLen - 49).toNat) else none
 
-/-- `RecordBatch.decode` -/
+/-- `RecordBatch.decode`: the record count is a plain int32 (−1 is tolerated, anything below is invalid); it is
+    compared with the *decompressed* records in `decBatchTail` -/
 def decBatch (decomp : Int → Bytes → Option Bytes) (bs : Bytes) : Option (Batch × Bytes) :=
   match getFields [8, 4, 4, 1] bs with
   | some ([firstOffset, batchLen, ple, magic], r4) =>
@@ -192,23 +195,23 @@ def decBatch (decomp : Int → Bytes → Option Bytes) (bs : Bytes) : Option (Ba
      | some (crc, c0) =>
        match getFields [2, 4, 8, 8, 8, 2, 4] c0 with
        | some ([attrs, lod, fts, mts, pid, pepoch, fseq], c7) =>
-         (match getArrayLength c7 with
+         (match getInt 4 c7 with
           | none => none
           | some (numRecs, c8) =>
+            if numRecs < -1 then none else
             decBatchTail decomp (batchHdr firstOffset ple magic attrs lod fts mts pid pepoch fseq)
               batchLen crc c0 c8 numRecs)
        | _ => none)
   | _ => none
 
 /-- batches the encoder accepts and the wire carries faithfully: Go ranges of the fields, codec in the three
-    attribute bits, wire timestamps ≥ −1, well-typed records, sizes within the int32 length prefix and the
-    record-count guard of `getArrayLength` (≤ 2·MaxUint16) -/
+    attribute bits, wire timestamps ≥ −1, well-typed records, sizes and record count within int32 -/
 def Batch.WTP (comp : Int → Bytes → Bytes) (b : Batch) : Prop :=
   InInt 8 b.firstOffset ∧ InInt 4 b.partitionLeaderEpoch ∧ InInt 1 b.magic ∧ (0 ≤ b.codec ∧ b.codec < 8) ∧
   InInt 4 b.lastOffsetDelta ∧ (InInt 8 b.firstTimestamp ∧ -1 ≤ b.firstTimestamp) ∧
   (InInt 8 b.maxTimestamp ∧ -1 ≤ b.maxTimestamp) ∧
   InInt 8 b.producerID ∧ InInt 2 b.producerEpoch ∧ InInt 4 b.firstSequence ∧
-  (∀ r ∈ b.records, r.WT = true) ∧ b.partialTrailing = false ∧ b.records.length ≤ 131070 ∧
+  (∀ r ∈ b.records, r.WT = true) ∧ b.partialTrailing = false ∧ b.records.length < 2 ^ 31 ∧
   (comp b.codec (encRecords b.records)).length + 49 < 2 ^ 31
 
 /-! ## legacy Message / MessageBlock / MessageSet (magic 0 and 1) -/
